@@ -414,6 +414,36 @@ impl Runner {
             Op::ChildRemove { inst, parent, child } => {
                 self.exec_child_remove(inst, &parent, &child)
             }
+            Op::ChildMapClass { inst, parent, child, name } => {
+                if parent == "ta" {
+                    return "skip:ta".into()
+                }
+                // The parent's (first live) class, by its real name.
+                let Some(class) = self.class_infos(inst, &parent).into_iter()
+                    .next()
+                else { return "skip:no_class".into() };
+                let (Ok(name_in_parent), Ok(name_for_child)) = (
+                    rpki::ca::provisioning::ResourceClassName::from_str(&class.rcn),
+                    rpki::ca::provisioning::ResourceClassName::from_str(&name),
+                ) else { return "skip:name".into() };
+                let i = self.world.inst(inst);
+                i.enter();
+                let req = api::admin::UpdateChildRequest::resource_class_name_mapping(
+                    api::admin::ResourceClassNameMapping {
+                        name_in_parent, name_for_child,
+                    }
+                );
+                let result = block_on(i.mgr().ca_child_update(
+                    handle(&parent), ChildHandle::from_str(&child).unwrap(),
+                    req, ADMIN
+                )).map_err(err_string);
+                if result.is_ok() {
+                    self.state_changing_ops += 1;
+                    crate::oracles::note_entitlement_change(self);
+                    self.ext.entitlement_events += 1;
+                }
+                Self::label(&result)
+            }
             Op::ChildSuspend { inst, parent, child, suspend } => {
                 self.exec_child_suspend(inst, &parent, &child, suspend)
             }
